@@ -87,9 +87,9 @@ def step_audit(module, theorems):
     text = out + err
     res = {}
     # "'Wee.foo' depends on axioms: [propext, Quot.sound]"  or  "'Wee.foo' does not depend on any axioms"
-    for m in re.finditer(r"'([^']+)' depends on axioms: \[([^\]]*)\]", text, re.S):
+    for m in re.finditer(r"^'(\S+)' depends on axioms: \[([^\]]*)\]", text, re.S | re.M):
         res[m.group(1)] = [a.strip() for a in m.group(2).replace("\n", " ").split(",") if a.strip()]
-    for m in re.finditer(r"'([^']+)' does not depend on any axioms", text):
+    for m in re.finditer(r"^'(\S+)' does not depend on any axioms", text, re.M):
         res[m.group(1)] = []
     problems = []
     for t in theorems:
